@@ -5,9 +5,9 @@ CONSTANTS
   Log = {"l1"}
   MaxSeq = 2
   PrunePositions <- FirstAuthorPositions
-  MaxDeliver = 3
+  MaxDeliver = 4
   MaxInFlight = 2
-  ForgeBudget = 1
+  ForgeBudget = 2
   Classes <- AllClasses
   Defect_PruneAfterFailedIngest = FALSE
   Defect_PruneFlagSkipsLatestCheck = FALSE
